@@ -1386,6 +1386,66 @@ fn join_src(parts: &[String]) -> String {
     parts.join("\n")
 }
 
+/// The top-level statements of a generated source text, by kind and name, in order (`qreg:q:3 creg:c:2 gate:foo apply:h
+/// measure reset barrier if:x opaque`): what the text says, independently of the parser and of `qasm/ast`. Only for texts
+/// the generators wrote themselves (one statement ends at a `;` outside braces or at the closing brace of a gate body).
+fn expected_kinds(src: &str) -> String {
+    let mut out: Vec<String> = Vec::new();
+    let mut depth = 0usize;
+    let mut cur = String::new();
+    let mut stmts: Vec<String> = Vec::new();
+    for line in src.lines() {
+        let line = match line.find("//") {
+            Some(i) => &line[..i],
+            None => line,
+        };
+        for ch in line.chars() {
+            cur.push(ch);
+            match ch {
+                '{' => depth += 1,
+                '}' => {
+                    depth = depth.saturating_sub(1);
+                    if depth == 0 {
+                        stmts.push(std::mem::take(&mut cur));
+                    }
+                }
+                ';' if depth == 0 => stmts.push(std::mem::take(&mut cur)),
+                _ => {}
+            }
+        }
+        cur.push(' ');
+    }
+    let ident = |t: &str| -> String { t.chars().take_while(|c| c.is_alphanumeric() || *c == '_').collect() };
+    for st in stmts {
+        let t = st.trim();
+        if t.is_empty() || t == ";" || t.starts_with("OPENQASM") || t.starts_with("include") {
+            continue;
+        }
+        let word = ident(t);
+        let rest = t[word.len()..].trim_start();
+        let reg = |rest: &str| -> String {
+            let name = ident(rest);
+            let size: String = rest[name.len()..].chars().filter(|c| c.is_ascii_digit()).collect();
+            format!("{name}:{size}")
+        };
+        out.push(match word.as_str() {
+            "qreg" => format!("qreg:{}", reg(rest)),
+            "creg" => format!("creg:{}", reg(rest)),
+            "gate" => format!("gate:{}", ident(rest)),
+            "opaque" => "opaque".to_string(),
+            "barrier" => "barrier".to_string(),
+            "reset" => "reset".to_string(),
+            "measure" => "measure".to_string(),
+            "if" => {
+                let after = rest.find(')').map(|i| rest[i + 1..].trim_start()).unwrap_or("");
+                format!("if:{}", ident(after))
+            }
+            _ => format!("apply:{word}"),
+        });
+    }
+    format!("iexpect kinds {}", out.join(" "))
+}
+
 /// C10/C11/C12 correspondence: a whole program, interpreted and executed.
 fn gen_int_case(r: &mut Rng, nonunitary: bool, stats: &mut HashMap<String, usize>) -> (String, Vec<String>) {
     let p = qgen::gen_program(r, 5, nonunitary);
@@ -1409,6 +1469,7 @@ fn gen_int_case(r: &mut Rng, nonunitary: bool, stats: &mut HashMap<String, usize
         cmds.push("ixor".into());
     }
     cmds.push(format!("iadd {}", hex(&src)));
+    cmds.push(expected_kinds(&src));
     cmds.push("iexpect ok".into());
     cmds.push("isym new".into());
     cmds.push(format!("isym finish {}", r.next() >> 1));
@@ -1517,10 +1578,14 @@ fn gen_c17_case(r: &mut Rng, stats: &mut HashMap<String, usize>) -> (String, Vec
             cmds.push("ixor".into());
         }
         match mode {
-            0 => cmds.push(format!("iadd {}", hex(&join_src(&all)))),
+            0 => {
+                cmds.push(format!("iadd {}", hex(&join_src(&all))));
+                cmds.push(expected_kinds(&join_src(&all)));
+            }
             1 => {
                 for c in &chunks {
                     cmds.push(format!("iadd {}", hex(c)));
+                    cmds.push(expected_kinds(c));
                 }
             }
             _ => {
